@@ -927,10 +927,24 @@ impl Agent for KaServer {
 
 // ---------------------------------------------------------------------------------- peersharing
 
-fn ps_build(kind: &str, _ctx: &Ctx) -> ps::Message {
+/// The amount a directed case asks for (hint `amount:<n>`); 3 otherwise.
+fn ps_amount(ctx: &Ctx) -> u8 {
+    ctx.hint.strip_prefix("amount:").and_then(|n| n.parse().ok()).unwrap_or(3)
+}
+
+/// A reply of at most `amount` addresses (one address unless nothing was asked for).
+fn ps_peers(ctx: &Ctx) -> Vec<ps::PeerAddress> {
+    if ps_amount(ctx) == 0 {
+        vec![]
+    } else {
+        vec![ps::PeerAddress::V4(std::net::Ipv4Addr::new(10, 0, 0, 1), 3001)]
+    }
+}
+
+fn ps_build(kind: &str, ctx: &Ctx) -> ps::Message {
     match kind {
-        "ShareRequest" => ps::Message::ShareRequest(3),
-        "SharePeers" => ps::Message::SharePeers(vec![ps::PeerAddress::V4(std::net::Ipv4Addr::new(10, 0, 0, 1), 3001)]),
+        "ShareRequest" => ps::Message::ShareRequest(ps_amount(ctx)),
+        "SharePeers" => ps::Message::SharePeers(ps_peers(ctx)),
         "Done" => ps::Message::Done,
         k => panic!("harness: unknown peersharing message {k}"),
     }
@@ -980,9 +994,9 @@ impl Agent for PsClient {
     observers!(both);
     codec_fns!(ps::Message, ps_build, ps_seen);
     raw_fns!(ps_build, ps_seen);
-    async fn op(&mut self, name: &str, _ctx: &Ctx) -> OpOut {
+    async fn op(&mut self, name: &str, ctx: &Ctx) -> OpOut {
         match name {
-            "send_share_request" => out(self.0.send_share_request(3).await),
+            "send_share_request" => out(self.0.send_share_request(ps_amount(ctx)).await),
             "recv_peer_addresses" => out(self.0.recv_peer_addresses().await),
             "send_done" => out(self.0.send_done().await),
             n => panic!("harness: unknown op {n}"),
@@ -1023,10 +1037,10 @@ impl Agent for PsServer {
     }
     codec_fns!(ps::Message, ps_build, ps_seen);
     raw_fns!(ps_build, ps_seen);
-    async fn op(&mut self, name: &str, _ctx: &Ctx) -> OpOut {
+    async fn op(&mut self, name: &str, ctx: &Ctx) -> OpOut {
         match name {
             "recv_share_request" => out(self.0.recv_share_request().await),
-            "send_peer_addresses" => out(self.0.send_peer_addresses(vec![ps::PeerAddress::V4(std::net::Ipv4Addr::new(10, 0, 0, 1), 3001)]).await),
+            "send_peer_addresses" => out(self.0.send_peer_addresses(ps_peers(ctx)).await),
             n => panic!("harness: unknown op {n}"),
         }
     }
